@@ -57,7 +57,7 @@ void check_C17(Src &s, Ctx &ctx) {
     int rc1 = run_driver(drv, shim, casef, ck, log, fin, k, fr[fsel][0], fr[fsel][1]);
     auto l1 = read_lines(log);
     if (rc1 == 0 && parallel) throw Discard("parallel run issued fewer checkpoint operations than the dry run (schedule dependent): kill index not reached");
-    VF_REQUIRE("C17.kill-did-not-happen", rc1 == 137 && !l1.empty() && l1.back() == "KILLED", "expected the injector to kill run 1 at operation " << k << " but it exited with " << rc1);
+    VF_REQUIRE("C17.kill-did-not-happen", rc1 == 137 && std::find(l1.begin(), l1.end(), std::string("KILLED")) != l1.end() /* (worker threads may still log a line between the marker and the exit) */, "expected the injector to kill run 1 at operation " << k << " but it exited with " << rc1);
     std::string killed_op; for (auto it = l1.rbegin(); it != l1.rend(); ++it) if (it->rfind("FS ", 0) == 0) { killed_op = *it; break; }
     ctx.log("kill at operation " + std::to_string(k) + " of " + std::to_string(nops) + ": " + killed_op + " (torn fraction " + std::to_string(fr[fsel][0]) + "/" + std::to_string(fr[fsel][1]) + ")");
     // events of run 1: samples and completed checkpoints (a checkpoint is complete when the main file written after an "open-trunc main" is closed)
